@@ -556,10 +556,63 @@ fn after_rejected_calls(rep: &Report) {
     rep.extra("concurrent_c_calls", json!({"threads":4,"rounds":200,"tuples":2,"note":"free-running threads: a sample of schedules"}));
 }
 
+/// `kv ffi-huge <which: pw|salt> <extra>`: the exported C function with a password (or salt) of 2^32 + extra zero bytes --
+/// a fresh anonymous mapping, never written, so it costs no memory -- N = 2, r = 1, p = 1, 32 bytes out. Prints
+/// `<C result> <REF result>` in hex.
+pub fn ffi_huge_main(a: &[String]) -> ! {
+    let which = a[0].as_str();
+    let extra: usize = a[1].parse().unwrap_or(5);
+    let len: usize = (1usize << 32) + extra;
+    let map = unsafe { libc::mmap(std::ptr::null_mut(), len, libc::PROT_READ, libc::MAP_PRIVATE | libc::MAP_ANONYMOUS | libc::MAP_NORESERVE, -1, 0) };
+    if map == libc::MAP_FAILED {
+        std::process::exit(5);
+    }
+    let big: &[u8] = unsafe { std::slice::from_raw_parts(map as *const u8, len) };
+    let small = b"the other input".to_vec();
+    let (pw, salt): (&[u8], &[u8]) = if which == "pw" { (big, &small) } else { (&small, big) };
+    let ffi = Ffi::load();
+    let mut out = vec![0u8; 32];
+    unsafe { (ffi.f)(pw.as_ptr(), pw.len(), salt.as_ptr(), salt.len(), 2, 1, 1, out.as_mut_ptr(), 32) };
+    // REF: OpenSSL's PBKDF2 takes its lengths as C ints, so the reference value is computed through the identity
+    // HMAC(key) = HMAC(SHA-256(key)) for keys longer than a block: scrypt(P, ..) = scrypt(SHA-256(P), ..) for |P| > 64
+    let want = if which == "pw" { r::scrypt(&r::sha256(pw), salt, 2, 1, 1, 32) } else { vec![] };
+    println!("{} {}", hx(&out), hx(&want));
+    std::process::exit(0);
+}
+
+/// Thorough tier: a length that does not fit 32 bits across the C ABI (a password of 2^32 + 5 bytes).
+fn huge_inputs(rep: &Report) {
+    let exe = std::env::current_exe().unwrap_or_else(|_| crate::report::machinery("current_exe"));
+    // (the password only: for a salt of that size no independent reference value is available here)
+    for which in ["pw"] {
+        rep.eval(1);
+        rep.nontrivial(format!("ffi-huge-{}", which).as_bytes());
+        let o = match std::process::Command::new(&exe).args(["ffi-huge", which, "5"]).stdin(std::process::Stdio::null()).stderr(std::process::Stdio::piped()).output() {
+            Ok(o) => o,
+            Err(e) => crate::report::machinery(&format!("cannot start the huge-input child: {}", e)),
+        };
+        let t = String::from_utf8_lossy(&o.stdout).to_string();
+        let f: Vec<&str> = t.split_whitespace().collect();
+        let case = json!({"via":"ffi","kind":"huge","which":which});
+        if o.status.code() == Some(5) {
+            rep.extra(&format!("ffi_huge_{}", which), json!("not judged: a mapping of 2^32 + 5 bytes could not be made"));
+        } else if !o.status.success() || f.len() != 2 {
+            use std::os::unix::process::ExitStatusExt;
+            rep.violation("ffi/crash", case, format!("the process calling the exported C scrypt with a {} of 2^32 + 5 bytes died (signal {:?}, exit {:?})", if which == "pw" { "password" } else { "salt" }, o.status.signal(), o.status.code()));
+        } else if f[0] != f[1] {
+            rep.violation("ffi/value-differs", case, format!("exported C scrypt with a {} of 2^32 + 5 bytes wrote a value different from RFC 7914 (a length that does not fit 32 bits)", if which == "pw" { "password" } else { "salt" }));
+        }
+    }
+}
+
 /// For other checks: the exported C function at the parameters of the key-lock format (N = 32768, r = 8, p = 1, 32 bytes) for
 /// the given passwords and salt, in child processes, each compared with REF.
 pub fn ffi_at_lock_parameters(rep: &Report, pws: &[Vec<u8>], salt: &[u8; 32]) {
-    let jobs: Vec<(Tuple, u8)> = pws.iter().map(|pw| (Tuple { pw: pw.clone(), salt: salt.to_vec(), n: 32768, r: 8, p: 1, dk: 32 }, 0u8)).collect();
+    let mut jobs: Vec<(Tuple, u8)> = pws.iter().map(|pw| (Tuple { pw: pw.clone(), salt: salt.to_vec(), n: 32768, r: 8, p: 1, dk: 32 }, 0u8)).collect();
+    // a caller that derives the key IN PLACE: the output buffer is the salt buffer, or the (40-byte) password buffer
+    let inplace = Tuple { pw: b"a password of forty bytes, give or take.".to_vec(), salt: salt.to_vec(), n: 32768, r: 8, p: 1, dk: 32 };
+    jobs.push((inplace.clone(), 1));
+    jobs.push((inplace, 2));
     let nb = 8usize;
     let slices: Vec<Vec<(Tuple, u8)>> = (0..nb).map(|k| jobs.iter().skip(k).step_by(nb).cloned().collect()).collect();
     slices.par_iter().enumerate().for_each(|(k, sl)| ffi_batch(rep, sl, &format!("lock-parameters-{}", k)));
@@ -639,6 +692,9 @@ pub fn run(rep: &'static Report) {
     memory_pressure(rep);
     processor_counts(rep);
     after_rejected_calls(rep);
+    if rep.tier == Tier::Thorough {
+        huge_inputs(rep);
+    }
     rep.extra("library_tuples", json!(lib.len()));
     rep.extra("ffi_tuples", json!(ffi_t.len()));
     rep.sample(lib[lib.len() / 2].json("lib"));
@@ -648,6 +704,10 @@ pub fn run(rep: &'static Report) {
 }
 
 pub fn replay(rep: &'static Report, case: &Value) {
+    if case["kind"] == "huge" {
+        huge_inputs(rep);
+        return;
+    }
     if case["kind"] == "cpus" {
         processor_counts(rep);
         return;
